@@ -116,6 +116,10 @@ pub fn contents(_stack: &Stack<Span<'_>>) -> Contents {
 }
 #[cfg(not(kani))]
 pub fn contents(stack: &Stack<Span<'_>>) -> Contents {
+    contents_real(stack)
+}
+/// Contents of the real `pest::Stack` (harnesses that run without stub set S).
+pub fn contents_real(stack: &Stack<Span<'_>>) -> Contents {
     let mut data = [(0, 0); stubs::CAP];
     let n = stack.len();
     let all = &stack[0..n];
